@@ -1,5 +1,5 @@
 from ..jobs import CH
-from ._util import tjobs
+from ._util import tjobs, window
 from ..spec.templates import ALL
 
 H = "vf.harness.c14"
@@ -41,11 +41,12 @@ def jobs(tier):
             continue
         for mask in ((0, 1) if q else (0, 1, 3)):
             ep = [("o0", "int")] if mask else []
-            pre = ["-1 <= o0 <= 3" if q else "-2 <= o0 <= 5"] if mask else []
+            pre = ["0 <= o0 <= 2" if q else "-2 <= o0 <= 5"] if mask else []
             fx = {"mask": mask, "o1": 0}
             if not mask:
                 fx["o0"] = 0
             out.extend(tjobs(f"{H}:c14_pipeline", t, tier, fixed=fx, extra_params=ep, extra_pre=pre, timeout=400 if q else 1500,
+                             shrink=(window(t, tier, 1, wide=[n for n in ("i", "j", "n", "b") if True][: (2 if mask else 3)]) if q else None),
                              functions=["Builder.build", "Builder.build_array_item", "Builder.add_to_context", "Builder.get_gate_definition", "AbstractGate.call",
                                         "Parameter.validate", "fill_in_let", "expand_macros", "GateReplacer.visit_NamedQubit", "run_jaqal_circuit"],
                              note=f"{t} over the native gate set, override mask {mask}: if the reference finds a reference that cannot be honoured, some stage up to "
